@@ -6,16 +6,17 @@ From TC Require Import PyStr.
 Import ListNotations.
 
 Section Mismatch.
-  Context {I O : Type} (eq_dec : forall a b : O, {a = b} + {a <> b}) (model : I -> O).
+  Context {I O : Type} (eqb : O -> O -> bool) (model : I -> O).
   Fixpoint mismatches_from (n : nat) (cases : list (I * O)) : list nat :=
     match cases with
     | [] => []
     | (i, o) :: r =>
-        if eq_dec (model i) o then mismatches_from (S n) r else n :: mismatches_from (S n) r
+        if eqb (model i) o then mismatches_from (S n) r else n :: mismatches_from (S n) r
     end.
   Definition mismatches := mismatches_from 0.
 End Mismatch.
 
+Definition dec_eqb {A} (d : forall a b : A, {a = b} + {a <> b}) (a b : A) : bool := if d a b then true else false.
 Definition nat_list_eq_dec := list_eq_dec Nat.eq_dec.
 Definition Z_list_eq_dec := list_eq_dec Z.eq_dec.
 Definition bool_eq_dec := Bool.bool_dec.
